@@ -1,7 +1,7 @@
 SPECIFICATION Spec
 CONSTANTS
   Params = {"p1", "p2"}
-  Mod2 = {}
+  Mod2 = {"p2"}
   Vals = {"a", "b"}
   Errs = {"e1", "e2"}
   Invs = {"i1"}
@@ -11,7 +11,8 @@ CONSTANTS
   NoDefault = {"p1"}
   InitScopeSets = {{"all"}}
   HiddenChoices = {{}}
-  ActScopes = {"p1"}
+  ActScopes = {"mod"}
+  RepKinds = {"ReadOk", "ReadRaise", "ReadInvalid", "AssignInvalid", "Activate"}
   MaxNow = 3
 CONSTRAINT TimeBound
 INVARIANT TypeOK
